@@ -52,7 +52,12 @@ Pool ==
     \* a PIPELINE variable that is itself named env::A is a different variable from A
     [Base EXCEPT !.penv = ("env::A" :> "1")], [Base EXCEPT !.penv = ("env::A" :> "2") @@ ("A" :> "1")], [Base EXCEPT !.penv = ("env::A" :> "1") @@ ("A" :> "2")],
     \* env::A as a signed field versus a step variable literally named env::A / :A
-    With(Base, "env", E(FALSE, ("env::A" :> "1"))), With(Base, "env", E(FALSE, (":A" :> "1"))) }
+    With(Base, "env", E(FALSE, ("env::A" :> "1"))), With(Base, "env", E(FALSE, (":A" :> "1"))),
+    \* nil versus empty containers INSIDE a matrix with named dimensions (the list shortcut of a simple matrix does not apply)
+    With(Base, "matrix", "setup_os"), With(Base, "matrix", "setup_os_eadj"), With(Base, "matrix", "setup_os_erem"), With(Base, "matrix", "adj_base_erem"),
+    \* the command is signed byte for byte: line-break spellings are different commands
+    With(Base, "command", "echo hello\n"), With(Base, "command", "echo hello\r\n"), With(Base, "command", "echo hello\r"),
+    With(Base, "command", "echo\nhello"), With(Base, "command", "echo\r\nhello"), With(Base, "command", "echo hello "), With(Base, "command", "echo  hello") }
 
 Init == \E x \in Pool : \E y \in Pool : c = [x |-> x, y |-> y]
 Next == FALSE /\ c' = c
